@@ -572,6 +572,10 @@ func (e *Exec) opaqueMethod(o Opaque, recv Iface, method string, args []Value) (
 		return e.codecMethod(o, method, args), true
 	case "bank":
 		return e.bankMethod(o, method, args), true
+	case "hash", "stream", "cipherblock":
+		if v, ok := e.hashMethod(o, method, args); ok {
+			return v, true
+		}
 	case "stubobj":
 		panic(engineErr("method %s on opaque stub object %v", method, o.Data))
 	}
